@@ -7,7 +7,7 @@ ENV = dict(os.environ)
 ENV['PATH'] = '/root/go/pkg/mod/golang.org/toolchain@v0.0.1-go1.25.0.linux-amd64/bin:' + ENV['PATH']
 ENV.update(GOTOOLCHAIN='local', GOFLAGS='-mod=mod', GOPROXY='off', GOSUMDB='off')
 src = sys.argv[1]
-ids = sys.argv[2:] or sorted(d for d in os.listdir(src) if re.fullmatch(r'C\d\d[a-z]', d))
+ids = sys.argv[2:] or sorted(d for d in os.listdir(src) if re.fullmatch(r'C\d\d[a-z]\d?', d))
 WT = '/tmp/wt/verify'
 def sh(cmd, cwd=None, timeout=900):
     p = subprocess.run(cmd, shell=True, cwd=cwd, env=ENV, capture_output=True, text=True, errors='replace', timeout=timeout)
